@@ -235,7 +235,8 @@ def spec_rows(evs, desc):
         elif d[0] == "info":
             rows.append(("info", d[1]))
         elif d[0] == "listparent":
-            rows.append(("optional", d[1]))
+            # a non-byte list is visible through its elements' rows; an empty one only through a row of its own
+            rows.append(("optional", d[1]) if d[2] else ("required-list-row", d[1]))
         elif d[0] == "buffer":
             elems = d[2]
             # walk forward over this buffer's elements and interleaved infos
@@ -283,6 +284,7 @@ def check_stream(symbols):
     exp = spec_rows(evs, desc)
     i = 0
     pending_optional = []
+    required_later = []
 
     def is_optional_row(g, ev):
         return g[0] == "row" and g[3] == str(ev.path[-1]) and g[1] == f"list[{ev.type.__args__[0].__name__}]" and g[4] == ""
@@ -293,12 +295,24 @@ def check_stream(symbols):
         while pending_optional and i < len(out) and is_optional_row(out[i], pending_optional[0]):
             pending_optional.pop(0)
             i += 1
-        if e[0] == "optional":
+        while required_later and i < len(out) and is_optional_row(out[i], required_later[0]):
+            required_later.pop(0)
+            i += 1
+        if e[0] in ("optional", "required-list-row"):
             ev = e[1]
             if i < len(out) and is_optional_row(out[i], ev):
                 i += 1
-            else:
+            elif e[0] == "optional":
                 pending_optional.append(ev)
+            else:
+                # may stand after the warnings that directly follow it
+                j = i
+                while j < len(out) and out[j][0] == "info":
+                    j += 1
+                if j < len(out) and is_optional_row(out[j], ev):
+                    required_later.append(ev)
+                else:
+                    return f"empty list {ev.path} is not shown at all (no element rows and no row of its own)"
             continue
         if e[0] != "info":
             pending_optional.clear()
@@ -326,9 +340,15 @@ def check_stream(symbols):
             if g[0] != "row" or g[3] != str(ev.path[-1]) or g[4] != e[2].hex() or g[2] != len(ev.path) - 1:
                 return f"row {i}: byte buffer {ev.path} expected one row with hex {e[2].hex()!r}, got {g}"
         i += 1
-    while pending_optional and i < len(out) and is_optional_row(out[i], pending_optional[0]):
-        pending_optional.pop(0)
-        i += 1
+    while (pending_optional or required_later) and i < len(out):
+        if pending_optional and is_optional_row(out[i], pending_optional[0]):
+            pending_optional.pop(0)
+            i += 1
+        elif required_later and is_optional_row(out[i], required_later[0]):
+            required_later.pop(0)
+            i += 1
+        else:
+            break
     if i != len(out):
         return f"{len(out) - i} extra row(s), first {out[i]}"
     return None
@@ -386,7 +406,7 @@ def run(tier, seed, only=None):
     rep = Report("C14", tier, seed, "other", "./check C14 (pyvc: row layout by symbolic execution; stream level by exhaustive enumeration of abstract event streams up to a length bound)",
                  explanation="proof obligations for the row layout (format / pretty / format_info over symbolic bytes, opaque value text, every path depth 1..8) and the attribute bit rows (C17 units); the stream level (list folding, order, one row per event, events printer) is decided only up to a bound: all abstract event streams of <= N events over the alphabet of event kinds the printers branch on, real printers against a spec printer written from the statement")
     rep.trusted_base = ["pyvc's reading of Python", "ANSI colour codes of colorama delimit the columns (used to parse real rows)", "the alphabet of event kinds covers every predicate the printer code branches on (is MarshalEvent, is list, element type BYTE, is child of the current parent, has attributes)"]
-    rep.assumptions = ["non-byte list parents may or may not get a row of their own (the statement is silent)", "row order rule: a buffer's row stands at the position of its last element; infos between elements may precede it"]
+    rep.assumptions = ["a non-empty non-byte list may or may not get a row for its parent event (it is visible through its elements); an empty one must be shown", "row order rule: a buffer's row stands at the position of its last element; infos between elements may precede it"]
     rep.replayer = replayer
     jobs = [(unit_format, ()), (unit_pretty, ())]
     jobs += [(c17.unit_rows, (t.__name__,)) for t in c17.tpma_types()]
